@@ -15,9 +15,23 @@ func consistent(abs, conc cty.Value) bool {
 	conc, _ = conc.Unmark()
 	if !abs.IsKnown() {
 		if abs.Type() != cty.DynamicPseudoType && !conc.Type().Equals(abs.Type()) {
-			// a typed unknown stands only for values of that type
-			if _, err := convert.Convert(conc, abs.Type()); err != nil || !abs.Type().HasDynamicTypes() {
-				return false
+			// "after converting the abstract result to the concrete result's type": a typed
+			// unknown stands only for values of a type it converts to (for example the
+			// unknown bool that the type unification of a conditional turns into a string
+			// once the other branch's type is known)
+			if abs.Type().HasDynamicTypes() {
+				if _, err := convert.Convert(conc, abs.Type()); err != nil {
+					return false
+				}
+			} else {
+				cv, err := convert.Convert(abs, conc.Type())
+				if err != nil {
+					return false
+				}
+				if cv.IsKnown() {
+					return consistent(cv, conc)
+				}
+				abs = cv
 			}
 		}
 		r := abs.Range()
